@@ -144,7 +144,7 @@ MASS_MOLS = {"MA": [("A", ["a1", "a2"])], "MB": [("B", ["b1"])]}
 
 @condition("C03.density_box",
            anchors=["polyply.src.build_system:_compute_box_size", "polyply.src.build_system:BuildSystem.__init__"],
-           replay=False, must_cover=["atom masses", "type masses"],
+           replay=False, must_cover=["atom masses", "type masses", "massless site"],
            stubs=["grid argument given (no np.mgrid over symbolic box)"],
            outside=["IEEE rounding beyond round(., 5)"],
            bounds={"quick": dict(layouts=[[("MA", 1)], [("MA", 2), ("MB", 1)]]), "thorough": dict(layouts=[[("MA", 1)], [("MA", 2), ("MB", 1)], [("MB", 3), ("MA", 1)]])})
@@ -172,6 +172,14 @@ def density_box(sx, B):
         sx.cover("type masses")
     else:
         sx.cover("atom masses")
+        if sx.sel("massless_site", [False, True]):
+            # an atom with an explicit mass of 0 (virtual site) whose atom type has a mass: it contributes nothing
+            meta = top.molecules[0]
+            a = sorted(meta.molecule.nodes)[0]
+            total = total - meta.molecule.nodes[a]["mass"]
+            meta.molecule.nodes[a]["mass"] = 0.0
+            top.atom_types["TA"]["mass"] = mA
+            sx.cover("massless site")
     dens = sx.real("density", 1, 5000)
     builder = BuildSystem(top, density=dens, start_dict={}, grid=np.array([[0.0, 0.0, 0.0]]))
     e = builder.box
@@ -253,7 +261,7 @@ import harness.C17 as _c17      # noqa: E402
            anchors=["polyply.src.build_system:BuildSystem._compose_system", "polyply.src.nonbond_engine:NonBondEngine.update_positions_in_molecules"],
            rejects=(), must_cover=["abandoned", "finished"], cfg={"path_timeout_s": 20},
            stubs=_c17.REGISTRY_STUBS if hasattr(_c17, "REGISTRY_STUBS") else ["as C17.rewind"],
-           bounds={"quick": dict(shapes=["path3", "star4"], calls=6, nrewind=(2, 3), rw_maxiter=(2,), all_subsets=False, attempts=1),
+           bounds={"quick": dict(shapes=["path3", "path5", "star4"], calls=7, nrewind=(2, 3), rw_maxiter=(2,), all_subsets=False, attempts=1),
                    "thorough": dict(shapes=["path3", "path4", "star4", "ring4"], calls=9, nrewind=(2, 4), rw_maxiter=(2, 3), all_subsets=False, attempts=2)},
            budget={"quick": 200, "thorough": 900})
 def completeness(sx, B):
@@ -293,7 +301,7 @@ def end_to_end(sx, B):
     buildfile = sx.sel("build_file", [False, True])
     grid = sx.sel("grid", [False, True])
     start = sx.sel("start", [False, True])
-    rebuild = sx.sel("rebuild_residue_B", [False, True]) if boxmode == "structure" else False
+    rebuild = sx.sel("rebuild_residue_B", [False, True]) if boxmode in ("structure", "meta coordinates") else False
     sx.cover({"box": "box", "density": "density", "structure": "structure", "meta coordinates": "meta coordinates"}[boxmode])
     d = tempfile.mkdtemp(prefix="pverif_", dir=os.environ.get("TMPDIR"))
     DeferredFileWriter().open_files.clear()
@@ -319,8 +327,12 @@ def end_to_end(sx, B):
                 kw["build_res"] = ["B"]
         elif boxmode == "meta coordinates":
             centres = [(1, "A", "A", (1.0, 2.0, 3.0)), (2, "B", "B", (1.5, 2.0, 3.0)), (3, "A", "A", (2.0, 2.0, 3.0))]
+            if rebuild:
+                centres = [c for c in centres if c[1] != "B"]
+                kw["build_res"] = ["B"]
             (Path(d) / "meta.gro").write_text(_gro(centres, sbox))
             kw["coordpath_meta"] = Path(d) / "meta.gro"
+            meta_centres = centres
         elif boxmode == "box":
             kw["box"] = np.array([6.0, 6.5, 7.0])
         else:
@@ -361,6 +373,13 @@ def end_to_end(sx, B):
         edge = round((mass * 1.6605410 / 20.0) ** (1 / 3.), 5)
         sx.claim(np.allclose(boxline, [edge] * 3, atol=2e-5), "a cubic box with volume = total mass / density is written",
                  lambda: what() + ": %r expected %r" % (boxline, edge))
+    if boxmode == "meta coordinates":
+        # residues given only as centres are backmapped around exactly those centres
+        first = got[:5]
+        cog = {1: np.mean([g[3] for g in first[0:2]], axis=0), 2: np.array(first[2][3]), 3: np.mean([g[3] for g in first[3:5]], axis=0)}
+        for (rid, rn, an, xyz) in meta_centres:
+            sx.claim(np.allclose(cog[rid], xyz, atol=2e-3), "a residue given as a centre is backmapped around exactly that centre",
+                     lambda: what() + ": residue %d centre %r expected %r" % (rid, cog[rid], xyz))
     # position of the supplied atoms in the output (the rebuilt residue B of the first molecule is atom 2)
     out_idx = [0, 1, 2, 3, 4, 5] if not rebuild else [0, 1, 3, 4, 5]
     for k, (rid, rn, an, xyz) in zip(out_idx, given):
